@@ -204,7 +204,7 @@ func c02Enumerate(t *testing.T, col *ev.Collector) {
 	if shard == 0 {
 		for _, cfg := range cfgs {
 			for f12 := uint32(0); f12 < 1<<12; f12++ {
-				check(cfg, 0x73|f12<<20)                     // SYSTEM, funct3=0, rd=rs1=0
+				check(cfg, 0x73|f12<<20)                    // SYSTEM, funct3=0, rd=rs1=0
 				check(cfg, 0x73|f12<<20|(rnd()&0x000f8f80)) // with rd/rs1 noise
 			}
 			for x := uint32(0); x < 1<<14; x++ { // fence: fm(4) rs1(5) rd(5)
